@@ -21,18 +21,18 @@ def plan(ctx):
     """list of (generator, seed, n_events)"""
     base = (ctx.seed * 7919) % 1000000
     if ctx.quick:
-        n = {'random_trace': 110, 'ro_trace': 32, 'member_trace': 44, 'journal_trace': 36, 'killpoint_trace': 36,
-             'converge_trace': 14}
+        n = {'random_trace': 100, 'ro_trace': 32, 'member_trace': 44, 'journal_trace': 36, 'killpoint_trace': 36,
+             'lag_trace': 24, 'converge_trace': 14}
         ev = 260
     else:
-        n = {'random_trace': 2400, 'ro_trace': 500, 'member_trace': 700, 'journal_trace': 600, 'killpoint_trace': 600,
-             'converge_trace': 300}
+        n = {'random_trace': 2200, 'ro_trace': 500, 'member_trace': 700, 'journal_trace': 600, 'killpoint_trace': 600,
+             'lag_trace': 500, 'converge_trace': 300}
         ev = 500
     out = []
     from harness import raft_scenarios
     for name in raft_scenarios.NAMES:
         out.append(('scenario', name, 0))
-    for gname in ('random_trace', 'ro_trace', 'member_trace', 'journal_trace', 'killpoint_trace', 'converge_trace'):
+    for gname in ('random_trace', 'ro_trace', 'member_trace', 'journal_trace', 'killpoint_trace', 'lag_trace', 'converge_trace'):
         for i in range(n[gname]):
             out.append((gname, base + i, ev if gname != 'converge_trace' else 200))
     return out
